@@ -847,6 +847,9 @@ func (m *Machine) BinOp(op string, l, r Value) (Value, error) {
 func (m *Machine) stringOp(op string, a, b string) (Value, error) {
 	switch op {
 	case "+":
+		if len(a)+len(b) > 1<<16 {
+			return Null(), unspec("resource: string grows beyond 64 KiB")
+		}
 		return Str(a + b), nil
 	case "in":
 		return Bool(strings.Contains(b, a)), nil
